@@ -5,6 +5,7 @@ import (
 	"fmt"
 	"reflect"
 	"runtime"
+	"strings"
 	"sync"
 	"time"
 
@@ -13,6 +14,7 @@ import (
 	jsondec "github.com/vimeo/dials/decoders/json"
 	tomldec "github.com/vimeo/dials/decoders/toml"
 	yamldec "github.com/vimeo/dials/decoders/yaml"
+	"github.com/vimeo/dials/ptrify"
 	"github.com/vimeo/dials/sources/static"
 
 	"verifharness/fw"
@@ -21,6 +23,13 @@ import (
 type c13ConcInner struct {
 	X int    `dials:"x"`
 	Y string `dials:"y"`
+}
+
+type c13Conc2 struct {
+	Backoffs []time.Duration          `dials:"backoffs"`
+	Limit    map[string]time.Duration `dials:"limit"`
+	Label    string                   `dials:"label"`
+	N        int                      `dials:"n"`
 }
 
 type c13Conc struct {
@@ -52,7 +61,7 @@ func c13Concurrent(w *fw.Worker) {
 	var wg sync.WaitGroup
 	var mu sync.Mutex
 	bad := map[string]string{}
-	var loads int64
+	var loads, loads2 int64
 	for g := 0; g < nG; g++ {
 		wg.Add(1)
 		go func(g int) {
@@ -77,10 +86,136 @@ func c13Concurrent(w *fw.Worker) {
 			}
 		}(g)
 	}
+	// ... and, at the same time, loads into a SECOND config type with other duration-bearing shapes through the JSON and
+	// Cue decoders (the two that substitute durations): whatever a decoder package keeps between calls must not carry
+	// over from one type to another
+	for g := 0; g < 6; g++ {
+		wg.Add(1)
+		go func(g int) {
+			defer wg.Done()
+			for it := 0; it < per; it++ {
+				format := []string{"json", "cue"}[(g+it)%2]
+				k := 1 + g*per + it
+				want := c13Conc2{Backoffs: []time.Duration{time.Duration(k%40+1) * time.Second, 2 * time.Millisecond}, Limit: map[string]time.Duration{"a": time.Duration(k%30+1) * time.Minute}, Label: fmt.Sprintf("l%d", k), N: k}
+				data := fmt.Sprintf(`{"backoffs": ["%ds", "2ms"], "limit": {"a": "%dm"}, "label": "l%d", "n": %d}`, k%40+1, k%30+1, k, k)
+				d, err := dials.Config(context.Background(), &c13Conc2{}, &static.StringSource{Data: data, Decoder: decs[format]})
+				mu.Lock()
+				loads++
+				loads2++
+				if err != nil {
+					if _, seen := bad["error:"+format+":second-type"]; !seen {
+						bad["error:"+format+":second-type"] = fmt.Sprintf("document %d: %v", k, err)
+					}
+				} else if got := *d.View(); !reflect.DeepEqual(got, want) {
+					if _, seen := bad["differs:"+format+":second-type"]; !seen {
+						bad["differs:"+format+":second-type"] = fmt.Sprintf("document %d gave %+v, want %+v", k, got, want)
+					}
+				}
+				mu.Unlock()
+			}
+		}(g)
+	}
 	wg.Wait()
+	c13DirectDecoders(w, decs, bad)
 	w.Eval(loads)
 	w.Count("concurrent_loads_compared", loads)
+	w.Count("concurrent_loads_into_a_second_type_compared", loads2)
 	for key, detail := range bad {
 		w.Violation(-1, "concurrent-load-"+key, detail+fmt.Sprintf(" (%d goroutines loading all four formats into one type at once)", nG), nil)
 	}
+}
+
+type c13Dir2 struct {
+	Waits []time.Duration          `dials:"waits"`
+	Per   map[string]time.Duration `dials:"per"`
+	Arr   [2]time.Duration         `dials:"arr"`
+	Pair  []map[string]int         `dials:"pair"`
+}
+
+type c13Dir3 struct {
+	Tags  []string          `dials:"tags"`
+	Nums  []int             `dials:"nums"`
+	M     map[string]int    `dials:"m"`
+	Names map[string]string `dials:"names"`
+	Grid  [2]int            `dials:"grid"`
+}
+
+// c13DirectDecoders: eight goroutines call Decode of the JSON and Cue decoder values directly, in tight loops, for
+// three config types whose composite fields differ (lists, maps and arrays of durations; of plain values): what a
+// decoder (or a mangler it shares between calls) learnt for one type must never answer for another.
+func c13DirectDecoders(w *fw.Worker, decs map[string]dials.Decoder, bad map[string]string) {
+	per := w.Pick(1500, 12000)
+	type kind struct {
+		def  any
+		typ  *dials.Type
+		doc  func(k int) string
+		want func(k int) any
+	}
+	mkType := func(def any) *dials.Type {
+		v := reflect.ValueOf(def).Elem()
+		return dials.NewType(ptrify.Pointerify(v.Type(), v))
+	}
+	kinds := []kind{
+		{&c13Conc2{}, mkType(&c13Conc2{}), func(k int) string {
+			return fmt.Sprintf(`{"backoffs": ["%ds", "2ms"], "limit": {"a": "%dm"}, "label": "l%d", "n": %d}`, k%40+1, k%30+1, k, k)
+		}, func(k int) any {
+			return &c13Conc2{Backoffs: []time.Duration{time.Duration(k%40+1) * time.Second, 2 * time.Millisecond}, Limit: map[string]time.Duration{"a": time.Duration(k%30+1) * time.Minute}, Label: fmt.Sprintf("l%d", k), N: k}
+		}},
+		{&c13Dir2{}, mkType(&c13Dir2{}), func(k int) string {
+			return fmt.Sprintf(`{"waits": ["%dms"], "per": {"p": "%ds"}, "arr": ["1s", "%dh"], "pair": [{"x": %d}]}`, k%90+1, k%70+1, k%20+1, k)
+		}, func(k int) any {
+			return &c13Dir2{Waits: []time.Duration{time.Duration(k%90+1) * time.Millisecond}, Per: map[string]time.Duration{"p": time.Duration(k%70+1) * time.Second}, Arr: [2]time.Duration{time.Second, time.Duration(k%20+1) * time.Hour}, Pair: []map[string]int{{"x": k}}}
+		}},
+		{&c13Dir3{}, mkType(&c13Dir3{}), func(k int) string {
+			return fmt.Sprintf(`{"tags": ["t%d"], "nums": [%d, 2], "m": {"k": %d}, "names": {"n": "v%d"}, "grid": [%d, 4]}`, k, k, k, k, k)
+		}, func(k int) any {
+			return &c13Dir3{Tags: []string{fmt.Sprintf("t%d", k)}, Nums: []int{k, 2}, M: map[string]int{"k": k}, Names: map[string]string{"n": fmt.Sprintf("v%d", k)}, Grid: [2]int{k, 4}}
+		}},
+	}
+	var wg sync.WaitGroup
+	var mu sync.Mutex
+	var n int64
+	for g := 0; g < 8; g++ {
+		wg.Add(1)
+		go func(g int) {
+			defer wg.Done()
+			kd := kinds[g%len(kinds)]
+			format := []string{"json", "cue"}[(g/len(kinds))%2]
+			for it := 0; it < per; it++ {
+				k := 1 + g*per + it
+				note := func(key, detail string) {
+					mu.Lock()
+					if _, seen := bad[key]; !seen {
+						bad[key] = detail
+					}
+					mu.Unlock()
+				}
+				func() {
+					defer func() {
+						if p := recover(); p != nil {
+							note("panic:"+format+":direct-decode", fmt.Sprintf("document %d into %T: panic: %v", k, kd.def, p))
+						}
+					}()
+					v, err := decs[format].Decode(strings.NewReader(kd.doc(k)), kd.typ)
+					if err != nil {
+						note("error:"+format+":direct-decode", fmt.Sprintf("document %d into %T: %v", k, kd.def, err))
+						return
+					}
+					got, cerr := dials.VerifCompose(kd.def, []reflect.Value{v})
+					if cerr != nil {
+						note("error:"+format+":direct-decode", fmt.Sprintf("document %d into %T: decoded value does not stack: %v", k, kd.def, cerr))
+						return
+					}
+					if want := kd.want(k); !reflect.DeepEqual(got, want) {
+						note("differs:"+format+":direct-decode", fmt.Sprintf("document %d into %T gave %+v, want %+v", k, kd.def, got, want))
+					}
+				}()
+			}
+			mu.Lock()
+			n += int64(per)
+			mu.Unlock()
+		}(g)
+	}
+	wg.Wait()
+	w.Count("concurrent_direct_decodes_compared", n)
 }
